@@ -161,6 +161,8 @@ struct Hist<'a> {
     peer: Vec<Option<SocketAddr>>,
     srv_seen: Vec<String>,
     proxy: &'a Proxy,
+    /// replies shorter than the 3-byte tag that were sent and not yet seen by the client: (flow, sequence number, length)
+    short_replies: Vec<(usize, u8, usize)>,
 }
 
 impl<'a> Hist<'a> {
@@ -212,12 +214,22 @@ impl<'a> Hist<'a> {
             .take_delivered()
             .iter()
             .map(|d| {
-                let tag = if d.payload.len() >= 3 { format!("{}.{}", d.payload[0], d.payload[1]) } else { "short".into() };
                 let dd = w.dst.iter().position(|a| *a == d.source);
                 let ss = w.src.iter().position(|a| *a == d.destination);
                 let lbl = match (ss, dd) {
                     (Some(s), Some(dx)) => format!("{}", s * ND + dx),
                     _ => "?".into(),
+                };
+                let tag = if d.payload.len() >= 3 {
+                    format!("{}.{}", d.payload[0], d.payload[1])
+                } else {
+                    match self.short_replies.iter().position(|(f, _, l)| f.to_string() == lbl && *l == d.payload.len()) {
+                        Some(k) => {
+                            let (f, seq, _) = self.short_replies.remove(k);
+                            format!("{}.{}", f, seq)
+                        }
+                        None => "short".into(),
+                    }
                 };
                 format!("{}/{}.{}", lbl, tag, d.payload.len())
             })
@@ -234,7 +246,7 @@ pub fn exec(w: &World, proxy: &Proxy, timeout_ms: u64, ops: &[Op]) -> Result<Str
         let core = make_core(proxy.addr);
         let mux = vudp::spawn(&core, Duration::from_millis(timeout_ms)).map_err(|e| format!("spawn: {}", e))?;
         let nflows = w.src.len() * ND;
-        let mut h = Hist { w, mux, peer: vec![None; nflows], srv_seen: vec![], proxy };
+        let mut h = Hist { w, mux, peer: vec![None; nflows], srv_seen: vec![], proxy, short_replies: vec![] };
         h.settle().await;
         h.srv_seen.clear();
         let mut outs = vec![];
@@ -250,11 +262,16 @@ pub fn exec(w: &World, proxy: &Proxy, timeout_ms: u64, ops: &[Op]) -> Result<Str
                 }
                 Op::Reply(f, len) => {
                     if let (Some(to), Some(s)) = (h.peer[*f], w.srv[f % ND].as_ref()) {
-                        let mut p = vec![0u8; (*len).max(3)];
-                        p[0] = *f as u8;
-                        p[1] = seq;
-                        p[2] = 1;
-                        let _ = s.send_to(&p, to);
+                        if *len < 3 {
+                            h.short_replies.push((*f, seq, *len));
+                            let _ = s.send_to(&vec![0u8; *len], to);
+                        } else {
+                            let mut p = vec![0u8; *len];
+                            p[0] = *f as u8;
+                            p[1] = seq;
+                            p[2] = 1;
+                            let _ = s.send_to(&p, to);
+                        }
                     }
                 }
                 Op::Adv(ms) => tokio::time::advance(Duration::from_millis(*ms)).await,
